@@ -14,6 +14,8 @@ const RACE_DELAY: Duration = Duration::from_millis(200);
 /// against each other and the first to connect successfully wins the race.
 pub fn connect(host: &Host<&str>, port: u16, timeout: Duration, deadline: Option<Instant>) -> io::Result<TcpStream> {
     let addrs: Vec<_> = match *host {
+        #[cfg(kani)]
+        Host::Domain(_) => crate::verif::resolved_addrs(),
         Host::Domain(domain) => (domain, port).to_socket_addrs()?.collect(),
         Host::Ipv4(ip) => return TcpStream::connect_timeout(&(IpAddr::V4(ip), port).into(), timeout),
         Host::Ipv6(ip) => return TcpStream::connect_timeout(&(IpAddr::V6(ip), port).into(), timeout),
@@ -27,6 +29,8 @@ pub fn connect(host: &Host<&str>, port: u16, timeout: Duration, deadline: Option
     let ipv4 = addrs.iter().filter(|a| a.is_ipv4());
     let ipv6 = addrs.iter().filter(|a| a.is_ipv6());
     let sorted = intertwine(ipv6, ipv4);
+    #[cfg(kani)]
+    return crate::verif::record_attempt_order(sorted);
 
     let (tx, rx) = channel();
     let mut first_err = None;
@@ -140,3 +144,6 @@ fn test_intertwine_right() {
     let x: Vec<u32> = intertwine(vec![1, 2, 3].into_iter(), vec![4, 5, 6, 100, 101].into_iter()).collect();
     assert_eq!(&x[..], &[1, 4, 2, 5, 3, 6, 100, 101][..]);
 }
+
+#[cfg(kani)]
+include!(concat!(env!("ATTOHTTPC_VERIF_HARNESS"), "/happy.rs"));
